@@ -69,6 +69,52 @@ def _exempt(s: Site) -> Optional[str]:
     return None
 
 
+def escape_rule(prog: Program, run: Run, R: str = "C05.R1", info: bool = True):
+    """Value-triggered raise sites outside the DecodeError family that can leave a decode entry
+    point (shared with C06.R2: such an exception is not caught by the per-candidate handlers
+    and aborts the whole dispatch)."""
+    cg = CallGraph(prog)
+    eff = Effects(prog, cg, DATA_PARAMS, DATA_CALLS, set(CUT), DATA_ATTRS, {"decode_state"})
+    entries = [prog.func(e) for e in ENTRIES]
+    esc = eff.escaping(entries)
+    n_listed = 0
+    listed: List[str] = []
+    for s, path in esc:
+        C = f"{s.func.module.rel}:{s.func.qual}"
+        if s.exc in ("e",):
+            continue
+        if eff.is_sub(s.exc, "DecodeError"):
+            run.ok(R, C, f"{s.kind} {s.exc} ({s.trigger}-triggered): within the decode "
+                   "error family", s.loc)
+            continue
+        if s.trigger != "value":
+            n_listed += 1
+            listed.append(f"{s.loc} {s.func.qual}: {s.kind} {s.exc} [{s.trigger}] {s.what[:60]}")
+            continue
+        why = _exempt(s)
+        if why is not None:
+            run.ok(R, C, f"{s.kind} {s.exc}: description-level although data selects the "
+                   f"path ({why})", s.loc)
+            continue
+        run.violation(R, C, f"{s.kind}-{s.exc}:" + " ".join(s.what.split())[:50],
+                      f"`{s.what}` raises {s.exc} depending on the value of the bytes being "
+                      "decoded; callers only catch DecodeError, so this aborts DiagLayer.decode / "
+                      "variant matching / snooping", s.loc, stmt_key(s.stmt), path=path)
+    if info:
+        run.info("reachable_functions", len(eff.reached))
+    if info:
+        run.info("call_sites_resolved", cg.n_resolved)
+    if info:
+        run.info("call_sites_name_fallback", cg.n_fallback)
+    if info:
+        run.info("not_judged_description_or_type_sites", listed)
+    if info:
+        run.info("cut", CUT)
+    if cg.n_fallback > 0.1 * max(1, cg.n_resolved):
+        raise AnalysisError("more than 10% of the call sites needed the name-based fallback")
+    return eff
+
+
 def check(prog: Program, run: Run) -> None:
     run.rule("C05.R1", "every raise site reachable from a decode entry point whose trigger is "
              "the value of wire data raises the decode error family; implicit may-raise "
@@ -88,40 +134,7 @@ def check(prog: Program, run: Run) -> None:
     from .common import run_as
     run_as(run, "C01.R3", "C05.R4", lambda r: c01.key_tables(prog, r))
     _progress(prog, run)
-    cg = CallGraph(prog)
-    eff = Effects(prog, cg, DATA_PARAMS, DATA_CALLS, set(CUT), DATA_ATTRS, {"decode_state"})
-    entries = [prog.func(e) for e in ENTRIES]
-    esc = eff.escaping(entries)
-    n_listed = 0
-    listed: List[str] = []
-    for s, path in esc:
-        C = f"{s.func.module.rel}:{s.func.qual}"
-        if s.exc in ("e",):
-            continue
-        if eff.is_sub(s.exc, "DecodeError"):
-            run.ok("C05.R1", C, f"{s.kind} {s.exc} ({s.trigger}-triggered): within the decode "
-                   "error family", s.loc)
-            continue
-        if s.trigger != "value":
-            n_listed += 1
-            listed.append(f"{s.loc} {s.func.qual}: {s.kind} {s.exc} [{s.trigger}] {s.what[:60]}")
-            continue
-        why = _exempt(s)
-        if why is not None:
-            run.ok("C05.R1", C, f"{s.kind} {s.exc}: description-level although data selects the "
-                   f"path ({why})", s.loc)
-            continue
-        run.violation("C05.R1", C, f"{s.kind}-{s.exc}:" + " ".join(s.what.split())[:50],
-                      f"`{s.what}` raises {s.exc} depending on the value of the bytes being "
-                      "decoded; callers only catch DecodeError, so this aborts DiagLayer.decode / "
-                      "variant matching / snooping", s.loc, stmt_key(s.stmt), path=path)
-    run.info("reachable_functions", len(eff.reached))
-    run.info("call_sites_resolved", cg.n_resolved)
-    run.info("call_sites_name_fallback", cg.n_fallback)
-    run.info("not_judged_description_or_type_sites", listed)
-    run.info("cut", CUT)
-    if cg.n_fallback > 0.1 * max(1, cg.n_resolved):
-        raise AnalysisError("more than 10% of the call sites needed the name-based fallback")
+    eff = escape_rule(prog, run, "C05.R1")
     _implicit(prog, run, eff)
     _truncation(prog, run)
     _counted_loops(prog, run)
@@ -372,6 +385,34 @@ def _truncation(prog: Program, run: Run) -> None:
                           "the last byte of a bit-shifted value slips through and the bit "
                           "unpacking raises a foreign exception", f"{f.module.rel}:{g.lineno}",
                           stmt_key(g))
+    # nobody else takes bytes out of the PDU of a DecodeState without a guard of its own
+    for g_ in prog.iter_functions():
+        if not g_.module.rel.startswith("odxtools/") or g_.module.rel.startswith("odxtools/cli/") \
+                or g_ is f:
+            continue
+        for x in walk_no_nested(g_.node):
+            if not (isinstance(x, ast.Subscript) and isinstance(x.ctx, ast.Load) and isinstance(
+                    x.value, ast.Attribute) and x.value.attr == "coded_message"):
+                continue
+            root = x.value.value
+            if not (isinstance(root, ast.Name) and (root.id == "decode_state" or (
+                    root.id == "self" and g_.cls is not None and g_.cls.name == "DecodeState"))):
+                continue
+            gcfg = CFG(g_.node)
+            st_ = _stmt(g_.node, x)
+            gs = [y for y in walk_no_nested(g_.node) if isinstance(y, ast.If) and any(
+                isinstance(s_, ast.Raise) and "DecodeError" in ast.unparse(s_) for s_ in y.body)
+                  and "coded_message)" in ast.unparse(y.test) and "len(" in ast.unparse(y.test)]
+            if any(gcfg.dominates(gcfg.node_of(y), gcfg.node_of(st_)) for y in gs):
+                run.ok(R, g_.qual, f"`{ast.unparse(x)[:50]}` is dominated by a length guard "
+                       "raising DecodeError", f"{g_.module.rel}:{x.lineno}")
+            else:
+                run.violation(R, g_.qual, "unguarded-read-of-pdu",
+                              f"`{ast.unparse(x)[:70]}` takes bytes out of the PDU without the "
+                              "length guard of extract_atomic_value: slicing past the end "
+                              "silently yields fewer bytes, so a truncated PDU is accepted with "
+                              "a shortened value instead of being rejected with a DecodeError",
+                              f"{g_.module.rel}:{x.lineno}", stmt_key(st_))
     # byte_length = (bit_length + cursor_bit_position + 7) // 8
     bl = [x for x in walk_no_nested(f.node) if isinstance(x, ast.Assign) and ast.unparse(
         x.targets[0]) == "byte_length"]
